@@ -10,7 +10,7 @@ from ..report import RuleSpec
 from .. import codec as C
 from .. import sym
 from ..flow import Flow, SeqV, ExprV, TupV, show, ctor_kwargs
-from .common import unparse, local_defs, strip_calls, ordered_stmts, call_name
+from .common import unparse, local_defs, strip_calls, ordered_stmts, call_name, comp_of_append_loop
 from . import timing_common as T
 from . import c04
 
@@ -79,6 +79,11 @@ def families(ctx):
     frame = None
     for s in fn.node.body:
         if isinstance(s, ast.Assign) and isinstance(s.targets[0], ast.Name):
+            if isinstance(s.value, ast.List) and not s.value.elts:
+                # a family filled by a loop of its own is the comprehension it is
+                lc = comp_of_append_loop(fn.node, s.targets[0].id)
+                if lc is not None:
+                    s = ast.fix_missing_locations(ast.copy_location(ast.Assign(targets=s.targets, value=lc), s))
             v = F.eval(s.value)
             if isinstance(s.value, ast.ListComp) and isinstance(v, SeqV) and isinstance(v.elem, ast.Tuple):
                 fam[s.targets[0].id] = (v, s)
